@@ -1,0 +1,26 @@
+//go:build verif
+
+package revfile
+
+// Contracts for the gvc verifier (/verif). Comment-only; never compiled into
+// a normal build.
+
+// buildReverseIndex (C10: offset-to-id lookups and ordered iteration through
+// the .rev file go-git writes answer as the index does): the k-th entry of the
+// reverse index is the index position -- as counted while walking the index in
+// name order -- of the k-th entry the index yields in offset order
+// (EntriesByOffset; that iterator's order is the index's own business). Whole
+// 64-bit offsets are the keys: no packing of offset and position into one word.
+//gvc:func (*encoder).buildReverseIndex
+//gvc:  props C10
+//gvc:  theory int
+//gvc:  opt coarse
+//gvc:  opt frame args
+//gvc:  opt callees abstract
+//gvc:  requires nn: idx != nil
+//gvc:  loop 1 invariant pos: true
+//gvc:  loop 1 step numbered: has(offsetToPos, entry.Offset) && offsetToPos[entry.Offset] == head(pos)
+//gvc:  loop 2 invariant pos: true
+//gvc:  loop 2 step placed: len(e.entries) >= 1 && e.entries[len(e.entries) - 1] == offsetToPos[entry.Offset]
+//gvc:  ensures byoffset: result == nil ==> calls("Entries") == 1 && calls("EntriesByOffset") == 1
+//gvc:end
